@@ -12,3 +12,19 @@ Example C19_instance :
   runs 2 (F, F) (SInsert false 1 :: SInsert false 2 :: SContains false 1 :: SContains false 2 :: SContains false 3 :: nil)
   = None :: None :: Some true :: Some true :: Some false :: nil.
 Proof. vm_compute. reflexivity. Qed.
+
+(** the same over binary elements, as executed by the correspondence suite for sets of up to 64 bits: the machine over [N]
+    elements is the machine above read through N.of_nat, and every history over elements below 2^bits answers like the
+    reference sets of N *)
+From Coq Require Import NArith.
+From Rsbdd Require Import Sets.BddSetN.
+Theorem C19_histories_N bits os : Forall (op_okN bits) os ->
+  runsN bits (F, F) os = rrunsN ((fun _ => false), (fun _ => false)) os.
+Proof. exact (BddSetN.C19_histories_N bits os). Qed.
+Theorem C19_machine_N bits os st : runsN bits st (map sop_to_N os) = runs bits st os.
+Proof. exact (runsN_of_nat bits os st). Qed.
+Print Assumptions C19_histories_N. Print Assumptions C19_machine_N.
+(** a 64-bit set: after inserting 5, the element 5 + 2^56 is not a member, 5 is *)
+Example C19_wide_instance :
+  runsN 64 (F, F) (SNInsert false 5%N :: SNContains false (5 + 2 ^ 56)%N :: SNContains false 5%N :: nil) = None :: Some false :: Some true :: nil.
+Proof. vm_compute. reflexivity. Qed.
